@@ -83,8 +83,10 @@ func (s *Sim) startCLI() {
 	run := CLIRun
 	s.W.At(0, "cli-start", func() {
 		go func() {
+			simrt.Resume("harness/cli-start")
 			s.W.Log("cli", "start", nil, strings.Join(args, " "), 0)
 			err := run(args)
+			simrt.Resume("harness/cli-returned")
 			s.W.Log("cli", "exit", nil, errStr(err), 0)
 		}()
 	})
